@@ -59,4 +59,22 @@ func runC06(c *core.Ctx) {
 	h.voterCacheFreshness("C06.3b voter-cache")
 	c.Clause("C06.4 matchIndex raised only by a success reply for the acknowledged request")
 	h.matchIndexOnlyOnSuccess("C06.4 matchIndex")
+	h.storageErrorsSurface("C06.5 storage-errors-surface", storageErrExempt)
+}
+
+// storageErrExempt: storage-layer errors that are deliberately not handed on,
+// one named site each.
+var storageErrExempt = map[string]string{
+	"(*Raft).onSnapshotTaken (*Raft).compactLog":    "compaction after a snapshot is best effort (source: 'todo: log error'); the snapshot itself is already published",
+	"(*leader).checkLogCompact (*Raft).compactLog":  "retrying compaction once a lagging follower caught up is best effort",
+	"(*snapshot).release (*os.File).Close":          "closing a snapshot file opened read-only",
+	"(*snapshotSink).done (*os.File).Close":         "sink is being abandoned because the caller reported an error, which is returned",
+	"(*snapshotSink).done os.Remove":                "sink is being abandoned because the caller reported an error, which is returned",
+	"(*snapshotSink).done (*snapshots).applyRetain": "pruning old snapshots is best effort (source: 'todo: trace error'); the new snapshot is already published",
+	"(*snapshotSink).done$1 os.Remove":              "clean-up of the temporary file while done is returning an earlier error",
+	"(*snapshotSink).done$2 (*os.File).Close":       "clean-up of the meta file while done is returning an earlier error",
+	"(*snapshotSink).done$2 os.RemoveAll":           "clean-up of the meta file while done is returning an earlier error",
+	"lockDir$1 (*os.File).Close":                    "clean-up of the temporary lock file; the lock itself is the hard link",
+	"lockDir$1 os.Remove":                           "clean-up of the temporary lock file; the lock itself is the hard link",
+	"openStorage$1 (*log.Log).Close":                "clean-up of what was opened while openStorage is returning an earlier error",
 }
